@@ -16,7 +16,7 @@ RULE = (
     ".cnr, hand-cut segments, segments with ci/sem columns, a VariantArray, shared filter lists and an ignore tuple are built "
     "from it) and a sequence of 1..4 steps from {target, antitarget, fix, segment (none/haar/hmm-germline, processes 1/2/3/16), "
     "segmetrics, call (every method x filter list), genemetrics, breaks, bintest, metrics, export bed/vcf/seg-like/theta/nexus, "
-    "center_all on a copy, merge/flatten/subtract/intersection/subdivide/resize, by_arm/by_gene iteration, reseed(numpy, "
+    "center_all on a copy, merge/flatten/subtract/intersection/subdivide/resize, merge/flatten with a caller-supplied combiner dict on an overlapping mixed-strand table, by_arm/by_gene iteration, reseed(numpy, "
     "random)}; half of the sequences repeat an earlier step (with another process count) after a reseed. After every step a deep "
     "snapshot of every workspace object (values, dtypes, index, columns, meta minus the chr_x/chr_y cache, lists, tuples) "
     "must equal the one before, and the result must equal both the first result of the same step in this history and a fresh "
@@ -41,7 +41,7 @@ FILTER_KEYS = ["f_none", "f_cn", "f_ci_cn", "f_sem_ampdel", "f_ampdel_cn", "f_ci
 def step(draw):
     op = draw(st.sampled_from([
         "target", "antitarget", "fix", "segment", "segment", "segmetrics", "call", "call", "genemetrics", "breaks", "bintest",
-        "metrics", "export_bed", "export_vcf", "export_seg", "export_theta", "export_nexus", "center", "interval", "by_arm",
+        "metrics", "export_bed", "export_vcf", "export_seg", "export_theta", "export_nexus", "center", "interval", "combine", "by_arm",
         "by_gene", "reseed"]))
     s = {"op": op}
     if op == "target":
@@ -79,6 +79,9 @@ def step(draw):
     elif op == "interval":
         s.update(fn=draw(st.sampled_from(["merge", "flatten", "subtract", "intersection", "subdivide", "resize"])),
                  arg=draw(st.sampled_from([0, 50, 300])))
+    elif op == "combine":
+        # merge / flatten of an overlapping, mixed-strand table with a caller-supplied combiner dict
+        s.update(fn=draw(st.sampled_from(["merge", "merge_stranded", "merge_bp", "flatten"])), which=draw(st.sampled_from(["cmb_gene", "cmb_val"])))
     elif op == "reseed":
         s.update(k=draw(st.integers(0, 2 ** 31)))
     return s
@@ -163,7 +166,20 @@ def build_ws(seed):
         vrows.append((c, s + 5, s + 6, "A", "G", False, z, 60.0, round(60 * f), f))
     varr = VariantArray(pd.DataFrame(vrows, columns=["chromosome", "start", "end", "ref", "alt", "somatic", "zygosity", "depth", "alt_count", "alt_freq"]),
                         {"sample_id": "samp"})
-    return {"baits": baits, "access": access, "tcov": tcov, "acov": acov, "ref": ref, "cnr": cnr, "cns": cns, "cns_m": cns_m, "varr": varr,
+    from skgenome import combiners
+
+    iv = []
+    for c in ("chr1", "chr2"):
+        pos = 1000
+        for k in range(int(rng.integers(4, 9))):
+            ln = int(rng.integers(50, 400))
+            iv.append((c, pos, pos + ln, "g%d" % (k // 2), "+-"[int(rng.integers(0, 2))], float(rng.integers(0, 9))))
+            pos += int(rng.integers(-150, 200)) + (ln if rng.random() < 0.4 else ln // 3)
+            pos = max(pos, iv[-1][1])
+    iv.sort(key=lambda r: (r[0], r[1], r[2]))
+    ivals = GA(pd.DataFrame(iv, columns=["chromosome", "start", "end", "gene", "strand", "val"]), {"sample_id": "ivals"})
+    return {"ivals": ivals, "cmb_gene": {"gene": max}, "cmb_val": {"val": max, "gene": combiners.join_strings},
+            "baits": baits, "access": access, "tcov": tcov, "acov": acov, "ref": ref, "cnr": cnr, "cns": cns, "cns_m": cns_m, "varr": varr,
             "f_none": None, "f_cn": ["cn"], "f_ci_cn": ["ci", "cn"], "f_sem_ampdel": ["sem", "ampdel"], "f_ampdel_cn": ["ampdel", "cn"],
             "f_ci": ["ci"], "ignore": ("-", ".", "CGH")}
 
@@ -262,6 +278,15 @@ def execute(s, ws, procs_override=None):
         if s["fn"] == "subdivide":
             return b.subdivide(5000 + s["arg"], s["arg"])
         return a.resize_ranges(s["arg"])
+    if op == "combine":
+        t, cmb = ws["ivals"], ws[s["which"]]
+        if s["fn"] == "merge":
+            return t.merge(combine=cmb)
+        if s["fn"] == "merge_stranded":
+            return t.merge(stranded=True, combine=cmb)
+        if s["fn"] == "merge_bp":
+            return t.merge(bp=30, combine=cmb)
+        return t.flatten(combine=cmb)
     if op == "by_arm":
         return [(c, arr) for c, arr in ws["cnr"].by_arm()]
     if op == "by_gene":
